@@ -13,16 +13,19 @@ CLAIMED = {
             "for hand-written functions binding/reading names in every placement and for every generated IR program, every "
             "identifier (symtable names, nested-scope names, fresh names, meta-variables) is tried with a real probe; outcome, "
             "recorded provenance and the state after a refusal are judged by TLC against Python's own scoping"),
-    "C11": ("TLA+ Tags (algebra A = M, TLC exhaustive) + TraceTags / TracePtera validation of real tag selectors",
-            "the tag algebra of tags.py is model-checked against set semantics; generated functions with random tag sets and "
+    "C11": ("TLA+ Tags + TagHeap (algebra A = M, objects with identity, TLC exhaustive) + TraceTags / TracePtera validation of real tag selectors",
+            "the tag algebra of tags.py is model-checked against set semantics (pure and over a heap of objects: & never mutates); "
+            "real expression histories are read back object by object; generated functions with random tag sets and "
             "every tag selector form are run for real and judged by TLC (captured bindings, reported names, refusals, "
             "instrumented-variable set, function-position tags)"),
     "C13": ("TLA+ Recv (identity rule vs equality/interning mechanism): TLC enumerates targets x call sequences, TraceRecv",
             "every probed object/class and call sequence over a population of plain, subclass, value-equal and unhashable "
             "instances is enumerated by TLC, executed with real method selectors and judged by TraceRecv"),
-    "C14": ("TLA+ Registry model: TLC enumerates histories, each replayed on five function placements, TraceRefs",
-            "every bounded history of activate-by-name / by-reference / deactivate / call / resolve is enumerated by TLC on the "
-            "registry model and replayed on real functions; identity of the resolved function and stream equality are validated"),
+    "C14": ("TLA+ Registry / RegistryPaths models: TLC enumerates histories, each replayed on real placements, TraceRefs runs the mechanism along the trace",
+            "every bounded history of activate-by-name / by-reference / deactivate / call / resolve on one function, and of "
+            "activations over several functions of one module (namesakes, nesting) under three registry mechanisms, is enumerated "
+            "by TLC and replayed on real functions; at every resolve step every reference of the module is resolved; identity of "
+            "the resolved function, stream equality and agreement with the mechanism model are validated"),
     "C16": ("TLA+ TraceAbsent (Supplied / FailsThere / NoAbsent / undefined globals) + TLC validation of IR family F16",
             "programs with declared-only variables and conditionally used undefined globals are run on every path under every "
             "instrumentation and supply configuration; TLC judges where the call fails, what value later reads see, and that the "
